@@ -377,6 +377,7 @@ type OpNode struct {
 func (n *OpNode) WriteTo(cw *ast.CodeWriter) {
 	n.env.Yield(sWritePre)
 	cw.WriteRune('(')
+	cw.WriteRune('«') // plugin nodes write whatever runes they like
 	if n.L != nil {
 		n.L.WriteTo(cw)
 		cw.WriteSpace()
